@@ -29,10 +29,15 @@ func (a *statusFn) Init(r plugintypes.RuleMetadata, data string) error {
 		return ErrMissingArguments
 	}
 
-	// TODO(jcchavezs): Shall we validate valid status e.g. >200 && <600?
 	status, err := strconv.Atoi(data)
 	if err != nil {
 		return fmt.Errorf("invalid argument: %s", err.Error())
+	}
+	// 0 keeps the default status of the disruptive action. Anything else has to be a status a final
+	// response can carry: net/http panics on codes outside 100-999 and treats 1xx as informational,
+	// in which case the client ends up with a 200.
+	if status != 0 && (status < 200 || status > 999) {
+		return fmt.Errorf("invalid argument: %d is not a final HTTP status code", status)
 	}
 	r.(*corazawaf.Rule).DisruptiveStatus = status
 	return nil
